@@ -33,7 +33,7 @@ func init() {
 		Real:     []string{"seehuhn.de/go/pdf Reader, Writer, scanner, xref, filters, crypto, Decode cache (working tree)"},
 		Stub:     []string{"io.ReaderAt with scripted failures", "sinks with scripted failures (3 kinds + self-flushing)", "crypto/rand.Reader"},
 		Quick:    core.Budget{Runs: 4000, Secs: 150},
-		Thorough: core.Budget{Runs: 600000, Secs: 1500},
+		Thorough: core.Budget{Runs: 600000, Secs: 900},
 		Run:      Run,
 		Corners:  corners,
 	})
